@@ -6,14 +6,15 @@
     and in canonical order" is: the result is a `sublist` of the input (same cells, same relative
     order), hence sorted by ANY order the input is sorted by. *)
 From Coq Require Import ZArith List Bool Permutation Sorted RelationClasses.
-From Bermuda Require Import Model.Base Lib.Calendar Model.Select Proofs.SelectP.
+From Bermuda Require Import Model.Base Model.Order Proofs.OrderP Proofs.TriangleP.
+From Bermuda Require Import Lib.Calendar Model.Select Proofs.SelectP Proofs.CalendarP Proofs.SelectCanon.
 Import ListNotations.
 Local Open Scope Z_scope.
 
 (* ------------------------------------------------------------------ a small triangle for the
    non-vacuity examples: 2 slices (country None / "US"), 2 periods, ragged evaluation dates *)
 Definition m1 : meta := default_meta.
-Definition m2 : meta := mkMeta (Some [65]) (Some [85;83]) None None None None [([108], MStr [120])] [].
+Definition m2 : meta := mkMeta (Some [65;99;99;105;100;101;110;116]) (Some [85;83]) None None None None [([108], MStr [120])] [].
 Definition mkc (m : meta) (s e v : Z) (x : Z) : cell :=
   mkCell KCum s e v None m [([97], VNum (Num false (1024 * x))); ([98], VNum (Num true x))].
 Definition ex_t : list cell :=
@@ -150,11 +151,72 @@ Example C11_indexing_nonvacuous :
      = Ok (GTri [mkc m1 737425 737455 737484 2; mkc m2 737425 737455 737455 4]).
 Proof. vm_compute. split; reflexivity. Qed.
 
-(* ------------------------------------------------------------------ month lags (bound stated) *)
+(* ------------------------------------------------------------------ month lags, every year >= 1
+   (Proofs/CalendarP.v: unbounded, axiom-free; MINID = -23628 is the month id of 0001-01) *)
 Theorem C11_month_lag_of_month_ends_is_the_month_difference : forall a b,
-  0 <= a <= 1571 -> 0 <= b <= 1571 -> lag_months (month_end a) (month_end b) = b - a.
-Proof. exact lag_months_month_ends. Qed.
+  MINID <= a -> MINID <= b -> lag_months (month_end a) (month_end b) = b - a.
+Proof. exact CalendarP.lag_months_month_ends. Qed.
 Print Assumptions C11_month_lag_of_month_ends_is_the_month_difference.
+
+Theorem C11_month_lag_of_month_aligned_cells : forall c,
+  1 <= pe c -> 1 <= ev c -> is_month_end (pe c) = true -> is_month_end (ev c) = true ->
+  pe c = month_end (month_id (pe c)) /\ ev c = month_end (month_id (ev c))
+  /\ dev_lag UMonth c = month_id (ev c) - month_id (pe c).
+Proof. exact month_lag_of_month_end_dates. Qed.
+Print Assumptions C11_month_lag_of_month_aligned_cells.
+
+(* ------------------------------------------------------------------ the selected list IS what the
+   constructor call in the source returns (C01's constructor: Model/Order.v mk_triangle; a
+   triangle is `canonical`: StronglySorted by the generated cell order, one cell class) *)
+Theorem C11_selection_is_a_fixed_point_of_the_constructor : forall out t,
+  sublist out t -> canonical t -> mk_triangle out = Ok out.
+Proof. exact selection_is_constructor_fixpoint. Qed.
+Print Assumptions C11_selection_is_a_fixed_point_of_the_constructor.
+
+Theorem C11_canonical_is_what_the_constructor_returns : forall t, cells_comparable t ->
+  (mk_triangle t = Ok t <-> canonical t).
+Proof. exact mk_triangle_canonical_iff. Qed.
+Print Assumptions C11_canonical_is_what_the_constructor_returns.
+
+Theorem C11_removing_operations_return_constructor_fixpoints : forall t, canonical t ->
+  (forall p, mk_triangle (tri_filter p t) = Ok (tri_filter p t))
+  /\ mk_triangle (right_edge t) = Ok (right_edge t)
+  /\ (forall m g, In (m, g) (slices t) -> mk_triangle g = Ok g)
+  /\ (forall ks k g, In (k, g) (split ks t) -> mk_triangle g = Ok g)
+  /\ (forall g s ix r, getitem g s ix t = Ok (GTri r) -> mk_triangle r = Ok r)
+  /\ (forall g s ix r, slice_getitem g s ix t = Ok (GTri r) -> mk_triangle r = Ok r)
+  /\ (forall ks, mk_triangle (tri_select ks t) = Ok (tri_select ks t)).
+Proof.
+  intros t H. split; [intro p; now apply filter_constructor |]. split; [now apply right_edge_constructor |].
+  split; [intros m g; now apply slices_constructor |]. split; [intros ks k g; now apply split_constructor |].
+  split; [intros g s ix r; now apply getitem_constructor |].
+  split; [intros g s ix r; now apply slice_getitem_constructor | intro ks; now apply select_constructor].
+Qed.
+Print Assumptions C11_removing_operations_return_constructor_fixpoints.
+
+(* t[a:b:c] with c < 0: the cells are selected in reverse and re-sorted by the constructor.
+   t[::-1] is the triangle itself when no two cells are order-equivalent; in general the result is a
+   canonical permutation of the selected cells *)
+Theorem C11_negative_steps_are_resorted : forall t,
+  list_slice_neg None None 1%positive t = rev t
+  /\ (cells_comparable t -> cells_separated t -> canonical t ->
+      mk_triangle (list_slice_neg None None 1%positive t) = Ok t
+      /\ getitem_neg_step sort_cells None None 1%positive t = GTri t)
+  /\ (forall a b s r, cells_comparable t -> canonical t ->
+      mk_triangle (list_slice_neg a b s t) = Ok r ->
+      Permutation (list_slice_neg a b s t) r /\ canonical r
+      /\ forall c, In c (list_slice_neg a b s t) -> In c t).
+Proof.
+  intro t. split; [apply list_slice_neg_full |]. split; [apply reversed_triangle_is_the_triangle |].
+  intros a b s r Hc Hk H. destruct (neg_step_canonical a b s t r Hc Hk H) as [P K].
+  split; [exact P | split; [exact K | apply list_slice_neg_in]].
+Qed.
+Print Assumptions C11_negative_steps_are_resorted.
+Example C11_negative_step_nonvacuous :
+  list_slice_neg (Some (-1)) (Some 0) 2%positive ex_t = [mkc m2 737425 737455 737515 5; mkc m1 737456 737484 737484 3]
+  /\ getitem_neg_step sort_cells None None 1%positive ex_t = GTri ex_t
+  /\ mk_triangle ex_t = Ok ex_t.
+Proof. vm_compute. repeat split; reflexivity. Qed.
 
 (* ------------------------------------------------------------------ the executable specification
    evaluated on the implementation's outputs pins the output down *)
